@@ -158,8 +158,15 @@ def _binds_by_name(call_node: ast.Call) -> bool:
 
 
 def _is_operator_call(node: ast.Call, args: List[ast.AST]) -> bool:
-    "`Op(seq, lambda ...)`: the only shape of a Select/SelectMany/Where call we know how to fuse"
-    return len(args) == 2 and len(node.keywords) == 0 and isinstance(args[1], ast.Lambda)
+    """`Op(seq, lambda x: ...)`, the lambda taking its one argument by position: the only shape
+    of a Select/SelectMany/Where call we know how to fuse"""
+    if len(args) != 2 or len(node.keywords) != 0 or isinstance(args[0], ast.Starred):
+        return False
+    f = args[1]
+    if not isinstance(f, ast.Lambda):
+        return False
+    a = f.args
+    return len(a.args) == 1 and not (a.posonlyargs or a.kwonlyargs or a.vararg or a.kwarg)
 
 
 def _is_fusable(node: ast.AST, func_name: str) -> bool:
